@@ -173,6 +173,8 @@ class CosimEngine(Engine):
         st['series'] = []
         if st['subdir']:
             os.makedirs(os.path.dirname(cfg['logfile']), exist_ok=True)
+        # surviving bytes -> what the process would have written had it lived (None when two different logs share the prefix)
+        self._fullof = {}
         st['mod'] = sys.modules['atomman.lammps.run']
         st['real_subprocess'] = st['mod'].subprocess
         st['stub'] = FakeSubprocess()
@@ -360,6 +362,10 @@ class CosimEngine(Engine):
             return data, rd['screen'], 1, 'error', rd
         off = fl.place_kill(rd['marks'], fault['place'], fault['u1'], fault['u2'])
         surv = fl.survive(data, off, fault['mode'], fault['bufsize'])
+        if surv in self._fullof and self._fullof[surv] != data:
+            self._fullof[surv] = None
+        else:
+            self._fullof[surv] = data
         frac = len(surv) / max(1, len(data))
         scr = rd['screen'][:int(frac * len(rd['screen']))]
         return surv, scr, -9, fault['place'], rd
@@ -470,6 +476,17 @@ class CosimEngine(Engine):
             p = lm.parse(text, src=tag)
         except ValueError as e:
             raise HarnessError('generator produced a log the model cannot read: %s' % e)
+        if p['blocks'] and p['blocks'][-1].torn_row is not None:
+            # what was the process writing when it died?  (known to the simulator, not to the reader)
+            b = p['blocks'][-1]
+            full = getattr(self, '_fullof', {}).get(text.encode('utf-8'))
+            if full:
+                ftext = full.decode('utf-8')
+                off = text.rfind('\n') + 1
+                end = ftext.find('\n', off)
+                line = ftext[off:end if end >= 0 else len(ftext)]
+                toks = line.split()
+                b.torn_full = toks if (lm.END_TRIGGER not in line and len(toks) == len(b.cols)) else None
         model.blocks.extend(p['blocks'])
         model.versions.append(p['version'])
         if p['banner_torn']:
@@ -512,6 +529,23 @@ class CosimEngine(Engine):
             return Violation('C19.I3', {'what': 'row count', 'printed_complete_rows': n, 'in_flight_row': b.torn_row is not None,
                                         'observed_rows': len(th), 'where': where},
                              klass='rowcount/' + ('short' if extra < 0 else 'long') + ('/torn' if b.torn_row is not None else ''))
+        if extra == 1 and b.torn_full is not False:
+            # the line LAMMPS was writing when it died was taken for a row: nothing demands that, and whatever is shown
+            # for it must not be wrong data presented as right - each cell is the value that was being printed, or missing
+            full = b.torn_full
+            for j, c in enumerate(b.cols):
+                cell = th.iloc[n, j]
+                try:
+                    got = lm.cell_value(cell)
+                except (ValueError, TypeError):
+                    got = None
+                if got is not None and got != got:
+                    continue                    # missing
+                ok_cell = full is not None and got is not None and lm.ulps(got, lm.tok_value(full[j])) <= ULP
+                if not ok_cell:
+                    return Violation('C19.I3', {'what': 'the line that was being written when LAMMPS died is presented as a thermo row with a '
+                                                        'value that was never printed', 'column': c, 'observed': repr(cell),
+                                                'fragment': b.torn_row, 'line_being_written': full, 'where': where}, klass='cell/inflight')
         for j, c in enumerate(b.cols):
             col = th.iloc[:, j].tolist()
             if len(th) and th.iloc[:, j].dtype == object:
